@@ -140,15 +140,18 @@ MigNoResurrection ==
 \* temporary file
 MigFailureClean ==
   (AtEnd /\ ~mig.ok) => /\ ~mig.tmp_left
-                        /\ cs.pre = "none" => ~mig.dst_exists
+                        /\ cs.pre \in {"none", "touch"} => ~mig.dst_exists
 \* no temporary file survives a successful migration either
 MigNoLitter == AtEnd => ~mig.tmp_left
 \* the bytes of the source file are the same before and after
 MigSourceUntouched == AtEnd => mig.src_same
+\* a source whose file stamp changes while the migration runs (somebody touched it) makes the migration
+\* fail - and a failed migration leaves nothing at the destination (MigFailureClean)
+MigSourceWatched == (AtEnd /\ cs.pre = "touch") => ~mig.ok
 \* a destination that exists before the publication - created before the call or while it runs -
 \* makes the migration fail and is left byte-identical
 MigNoOverwrite ==
-  (AtEnd /\ cs.pre # "none") => (~mig.ok /\ mig.dst_exists /\ mig.pre_same)
+  (AtEnd /\ cs.pre \in {"before", "during"}) => (~mig.ok /\ mig.dst_exists /\ mig.pre_same)
 \* an ambiguous legacy marker reached by the scan makes the migration fail, unless the caller
 \* opted in - then it alone does not
 MigAmbiguityRule ==
